@@ -4,9 +4,9 @@ use crate::support::*;
 use educe::Educe;
 use core::cmp::Ordering;
 #[derive(Educe)]
-#[educe(Hash(unsafe), Clone)]
-pub union T { b: u32, a: [u16; 2] }
-impl Copy for T {}
+#[educe(PartialEq(unsafe))]
+pub union T { f: [u16; 2] }
+
 pub fn mk(pattern: u8) -> T { let mut x = ::core::mem::MaybeUninit::<T>::uninit(); unsafe { ::core::ptr::write_bytes(x.as_mut_ptr() as *mut u8, 0, ::core::mem::size_of::<T>()); let p = x.as_mut_ptr() as *mut u8; for i in 0..::core::mem::size_of::<T>() { *p.add(i) = pattern.wrapping_mul(i as u8 + 1).wrapping_add(i as u8); } x.assume_init() } }
 pub fn bytes(x: &T) -> &[u8] { unsafe { ::core::slice::from_raw_parts(x as *const T as *const u8, ::core::mem::size_of::<T>()) } }
-pub fn run(out: &mut Out) { for p in 0..6u8 { let a = mk(p); let mut g = Rec::default(); ::core::hash::Hash::hash(&a, &mut g); let mut e = Rec::default(); ::core::hash::Hash::hash(bytes(&a), &mut e); out.check(g.0 == e.0, "union_8", "union_hash", || format!("hash fed {:?} expected {:?}", g.0, e.0)); } for p in 0..6u8 { let a = mk(p); let b = ::core::clone::Clone::clone(&a); out.check(bytes(&a) == bytes(&b), "union_8", "union_clone", || format!("clone {:?} of {:?}", bytes(&b), bytes(&a))); } }
+pub fn run(out: &mut Out) { for p in 0..6u8 { for q in 0..6u8 { let a = mk(p); let b = mk(q); let e = bytes(&a) == bytes(&b); out.check((a == b) == e, "union_8", "union_eq", || format!("{:?} == {:?} expected {}", bytes(&a), bytes(&b), e)); } } { let a = mk(3); let mut b = mk(3); unsafe { let p = &mut b as *mut T as *mut u8; let n = ::core::mem::size_of::<T>(); *p.add(n - 1) ^= 0x55; } out.check(a != b, "union_8", "union_eq_last_byte", || format!("values differing in their last byte compare equal")); } }
